@@ -51,7 +51,9 @@ class Terms:
                 if s["k"] == "assign":
                     p = s["p"]
                     if p.get("pr"):
-                        self.partial.add(p["l"])
+                        # a write through a dereference does not modify the local (the pointer) itself
+                        if p["pr"][0] != "*":
+                            self.partial.add(p["l"])
                     else:
                         self.defs.setdefault(p["l"], []).append(("s", bi, si))
                     r = s["r"]
@@ -59,12 +61,14 @@ class Terms:
                         if not r["p"].get("pr"):
                             self.mut_borrowed.add(r["p"]["l"])
                 elif s["k"] == "setdiscr":
-                    self.partial.add(s["p"]["l"])
+                    if not (s["p"].get("pr") and s["p"]["pr"][0] == "*"):
+                        self.partial.add(s["p"]["l"])
             t = b["t"]
             if t["k"] == "call":
                 p = t["dest"]
                 if p.get("pr"):
-                    self.partial.add(p["l"])
+                    if p["pr"][0] != "*":
+                        self.partial.add(p["l"])
                 else:
                     self.defs.setdefault(p["l"], []).append(("c", bi))
             elif t["k"] == "yield":
@@ -135,6 +139,10 @@ class Terms:
                         return ("try", base[2][0])
                     if q == "std::ops::Try::branch" and var == "Break":
                         return ("residual", base[2][0])
+            if t[0] == "downcast" and t[1][0] == "agg" and t[1][2] == t[2]:
+                for fname, ft in t[1][3]:
+                    if fname == n:
+                        return ft
             if t[0] == "agg" and t[1] is not None:
                 for fname, ft in t[3]:
                     if fname == n:
